@@ -2,7 +2,8 @@
 import json
 from .. import common
 
-T_TEXT = "name T\nversion 1.0\ntarget X8_01 (shots=10, flags=[1, 2])\n\nfloat array M =\n    {b}, 2\nfloat v = {b}\nG({a}, 2*q1) | 0\nVac | 1\nK(l=[1, 2]) | 0\n"
+T_TEXT = ("name T\nversion 1.0\ntarget X8_01 (shots=10, flags=[1, 2])\n\nfloat array M =\n    {b}, 2\nfloat v = {b}\nfloat array W[1, 2] =\n    {wv}\n"
+          "G({a}, 2*q1) | 0\nVac | 1\nK(l=[1, 2]) | 0\nK2(W) | 1\n")
 P_TEXT = "name P\nversion 1.0\n\nint array N =\n    3, 4\nVac | 0\nH(5, 2*q0) | 1\n"
 
 
@@ -10,6 +11,8 @@ def digest(p):
     """deep structural digest of everything observable of a program, plus its serialisation"""
     import numpy as np
     import blackbird
+    if isinstance(p, np.ndarray):           # the caller's own array
+        return (("arr", str(p.dtype), p.shape, tuple(p.flatten().tolist())),)
 
     def d(x):
         if isinstance(x, dict):
@@ -80,13 +83,17 @@ def run_history(case):
     import blackbird, warnings
     from blackbird.utils import to_DiGraph, match_template
     warnings.simplefilter("ignore")
-    objs = {"T": blackbird.loads(T_TEXT), "P": blackbird.loads(P_TEXT)}
+    import numpy as np
+    objs = {"T": blackbird.loads(T_TEXT), "P": blackbird.loads(P_TEXT), "E": np.array([[6.0, 7.0]])}
     for step, a in enumerate(case["hist"]):
         before = {n: digest(o) for n, o in objs.items()}
         act = a["act"]
         try:
             if act == "dumps":
-                blackbird.dumps(objs[a["o"]])
+                try:
+                    blackbird.dumps(objs[a["o"]])
+                except ValueError:      # an array argument that still holds parameters / objects cannot be written: a legitimate answer;
+                    pass                # what is checked is that asking left every object unchanged
             elif act == "read":
                 o = objs[a["o"]]
                 _ = (o.name, o.version, o.modes, o.target, o.programtype, o.operations, o.parameters, o.variables, o.is_template(), len(o))
@@ -98,7 +105,8 @@ def run_history(case):
                 except Exception:      # noqa: BLE001   a mismatch is a legitimate answer; purity is what is checked
                     pass
             elif act == "call":
-                objs[a["new"]] = objs[a["t"]](**{k: v for k, v in a["env"].items()})
+                # the whole-array parameter wv always receives the caller's array object E itself
+                objs[a["new"]] = objs[a["t"]](wv=objs["E"], **{k: v for k, v in a["env"].items() if not k.startswith("wv_")})
             elif act == "mutate":
                 o = objs[a["o"]]
                 i = a["i"] - 1
@@ -114,6 +122,9 @@ def run_history(case):
                     o.operations[0]["op"] = "Renamed"
                 elif a["kind"] == "set_option":
                     o.target["options"]["shots"] = 99
+                elif a["kind"] == "arg_array_elem":
+                    arr = [x for x in o.operations[i]["args"] if isinstance(x, np.ndarray)][0]
+                    arr[0][0] = 99
                 elif a["kind"] == "rrt_regref":
                     t = o.operations[0]["args"][1]
                     if i == 0:
@@ -129,10 +140,12 @@ def run_history(case):
         for n in before:
             if n != target and before[n] != after[n]:
                 diff = [i for i in range(len(before[n])) if before[n][i] != after[n][i]]
-                what = ["operations", "variables", "target", "type", "parameters", "modes", "name", "version", "serialisation"]
-                return "bad", "step %d %s changed object %s (%s); serialisation before:\n%s\nafter:\n%s" % (
+                what = ["operations", "variables", "target", "type", "parameters", "modes", "name", "version", "serialisation"] if n != "E" else ["the caller's array"]
+                return "bad", "step %d %s changed object %s (%s); before:\n%s\nafter:\n%s" % (
                     step + 1, a, n, ", ".join(what[i] for i in diff), before[n][-1], after[n][-1])
     for n, spec in case["final"].items():
+        if n == "E":
+            continue
         why = content_ok(spec, objs[n])
         if why:
             return "bad", "after the history object %s: %s" % (n, why)
